@@ -14,7 +14,7 @@ BUILTIN_FUNCS = {
     "takewhile", "reversed",
     # spec-only
     "old", "implies", "iff", "ite", "forall", "exists", "at", "typeof", "dead", "live", "unchanged",
-    "seq_eq", "fresh_obj", "allocated", "is_instance_exact", "last_yield", "store",
+    "seq_eq", "fresh_obj", "allocated", "is_instance_exact", "last_yield", "store", "anything",
 }
 
 
@@ -230,7 +230,7 @@ class ExprMixin:
                 return k(v.t != NULL, st)
         if isinstance(v, PyConst):
             return k(z3.BoolVal(bool(v.v)), st)
-        if isinstance(v, (Cell, FldList, LVal)):
+        if isinstance(v, (Cell, FldList, LVal)) or type(v).__name__ == "DictEntryList":
             lv = self.get_list(st, v)
             return k(lv.n > 0, st)
         if isinstance(v, PyTup):
@@ -681,7 +681,7 @@ class ExprMixin:
             if attr == "f_lasti":
                 return self.coro_lasti(base.coro, st, k)
             raise Unsupported("frame attribute " + attr)
-        if isinstance(base, (Cell, FldList, LVal, EmptyList, PyTup, DictFld, OptList)):
+        if isinstance(base, (Cell, FldList, LVal, EmptyList, PyTup, DictFld, OptList)) or type(base).__name__ == "DictEntryList":
             return k(FuncVal("bound_builtin", name="list." + attr, self_val=base), st)
         if isinstance(base, FuncVal) and attr in ("__name__", "__qualname__", "__module__", "__doc__"):
             return k(PyConst("<name>"), st)
